@@ -27,12 +27,16 @@ inductive LintWhy (s : Array Nat) (pe : PEnt) (r : Lint.Result) : Prop
   /-- a checker finding -/
   | check (hj : pe.junk = false) (ht : Target s pe.entry (r.lineno, r.column))
 
-theorem toLintEnt_fields (ck : CheckerKind) (vals : List Text) (pe : PEnt) (le : Lint.Ent)
-    (h : toLintEnt ck vals pe = .ok le) :
+theorem clsOf_plain {fmt : P.Fmt} (hf : fmt ≠ .dtd) : clsOf fmt = .plain := by
+  cases fmt <;> first | rfl | exact absurd rfl hf
+
+/-- the entity the linter model sees, for the base `Entity` / `Junk` classes (ini, inc, po, properties) -/
+theorem toLintEnt_fields (ck : CkCtx) (vals : List Text) (pe : PEnt) (le : Lint.Ent)
+    (h : toLintEnt ck .plain vals pe = .ok le) :
     le.s = pe.entry.s ∧ le.e = pe.entry.e ∧ le.mode = .ctx ∧ le.key = keyText pe.key ∧
     (pe.junk = true → le.kind = .junk) ∧
     (pe.junk = false → le.kind = .entity ∧ le.vs = valSpan false pe.entry ∧
-      ∃ rs, runChecker ck (some referenceLocale) pe pe = .ok rs ∧ le.checks = rs.map toLintCheck) := by
+      ∃ rs, runChecker ck pe pe = .ok rs ∧ le.checks = rs.map toLintCheck) := by
   unfold toLintEnt at h
   split at h
   · rename_i hj
@@ -73,9 +77,9 @@ theorem checkResult_resolve (s : Array Nat) (le : Lint.Ent) (e : P.Entry) (hm : 
     simp only [toLintCheck, hp, Lint.valuePosition, hm] at h
     cases h
 
-theorem lintFile_explained (fmt : P.Fmt) (ck : CheckerKind) (hck : checkerOf fmt = some ck)
+theorem lintFile_explained (fmt : P.Fmt) (hfd : fmt ≠ .dtd) (ck : CkCtx) (hck : ck.kind = checkerOf fmt)
     (s : Array Nat) (cur : List PEnt) (hfacts : ∀ pe ∈ cur, EntFacts fmt s pe) (vals : List Text)
-    (ents : List Lint.Ent) (hents : mapE (toLintEnt ck vals) cur = .ok ents)
+    (ents : List Lint.Ent) (hents : mapE (toLintEnt ck .plain vals) cur = .ok ents)
     (F : Lint.FileIn) (hFc : F.contents = s) (hFcur : F.cur = ents)
     (rs : List Lint.Result) (hlint : Lint.lintFile F = .ok rs) :
     ∀ r ∈ rs, ∃ pe ∈ cur, LintWhy s pe r := by
@@ -131,15 +135,19 @@ theorem lintFile_explained (fmt : P.Fmt) (ck : CheckerKind) (hck : checkerOf fmt
       rw [hchecks] at hc
       obtain ⟨cr, hcrm, rfl⟩ := List.mem_map.1 hc
       have hres' := checkResult_resolve s le pe.entry hm hs he hvs cr r hcr
-      exact .check hj (resolve_target fmt ck hck s _ pe pe (hfacts pe hpe) crs hrun cr hcrm _ hres').1
+      exact .check hj (resolve_target fmt hfd ck hck s pe pe (hfacts pe hpe) crs hrun cr hcrm _ hres').1
 
-/-- **every lint result is explained** (all texts of ini / inc / po / properties, with or without reference) -/
-theorem lintParsed_explained (fmt : P.Fmt) (ck : CheckerKind) (hck : checkerOf fmt = some ck)
+/-- **every lint result is explained** (all texts of ini / inc / po / properties, with or without reference; whatever
+    the external functions `ext` are) -/
+theorem lintParsed_explained (ext : Ext) (fmt : P.Fmt) (hfd : fmt ≠ .dtd)
     (reference : Option (List PEnt)) (s : Array Nat) (cur : List PEnt) (hfacts : ∀ pe ∈ cur, EntFacts fmt s pe)
-    (rs : List Lint.Result) (h : lintParsed fmt ck reference s cur = .ok rs) :
+    (rs : List Lint.Result)
+    (h : lintParsed ext (fileName fmt) (checkerOf fmt) (clsOf fmt) reference s cur = .ok rs) :
     ∀ r ∈ rs, ∃ pe ∈ cur, LintWhy s pe r := by
+  rw [clsOf_plain hfd] at h
   unfold lintParsed at h
-  simp only at h
+  have hnc : lintJunkClash .plain (refList reference) cur = false := by simp [lintJunkClash]
+  simp only [hnc, Bool.false_eq_true, if_false] at h
   split at h
   · cases h
   · rename_i ents hents
@@ -147,25 +155,22 @@ theorem lintParsed_explained (fmt : P.Fmt) (ck : CheckerKind) (hck : checkerOf f
     · cases h
     · rename_i rs' hlint
       cases h
-      exact lintFile_explained fmt ck hck s cur hfacts _ ents hents _ rfl rfl rs hlint
+      exact lintFile_explained fmt hfd _ rfl s cur hfacts _ ents hents _ rfl rfl rs hlint
 
 /-- the same for `lintText` (the texts as `Parser.readFile` decodes them) -/
-theorem lintText_explained (fmt : P.Fmt) (ck : CheckerKind) (hck : checkerOf fmt = some ck)
-    (refText : Option (Array Nat)) (s : Array Nat) (rs : List Lint.Result) (h : lintText fmt refText s = .ok rs) :
-    ∃ cur n0 n1, parseFile fmt s n0 = .ok (cur, n1) ∧ (∀ pe ∈ cur, EntFacts fmt s pe) ∧
+theorem lintText_explained (ext : Ext) (fmt : P.Fmt) (hf : fmt ≠ .dtd)
+    (refText : Option (Array Nat)) (s : Array Nat) (rs : List Lint.Result) (h : lintText ext fmt refText s = .ok rs) :
+    ∃ cur n0 n1, parseFile ext fmt s n0 = .ok (cur, n1) ∧ (∀ pe ∈ cur, EntFacts fmt s pe) ∧
       ∀ r ∈ rs, ∃ pe ∈ cur, LintWhy s pe r := by
-  have hf : fmt ≠ .dtd := by intro hh; subst hh; simp [checkerOf] at hck
   unfold lintText at h
-  rw [hck] at h
-  simp only at h
   cases refText with
   | none =>
     simp only at h
     split at h
     · cases h
     · rename_i cur n1 hp
-      have hfacts := parseFile_facts fmt hf s 0 cur n1 hp
-      exact ⟨cur, 0, n1, hp, hfacts, lintParsed_explained fmt ck hck none s cur hfacts rs h⟩
+      have hfacts := parseFile_facts ext fmt hf s 0 cur n1 hp
+      exact ⟨cur, 0, n1, hp, hfacts, lintParsed_explained ext fmt hf none s cur hfacts rs h⟩
   | some t =>
     simp only at h
     split at h
@@ -174,7 +179,7 @@ theorem lintText_explained (fmt : P.Fmt) (ck : CheckerKind) (hck : checkerOf fmt
       split at h
       · cases h
       · rename_i cur n2 hp2
-        have hfacts := parseFile_facts fmt hf s n1 cur n2 hp2
-        exact ⟨cur, n1, n2, hp2, hfacts, lintParsed_explained fmt ck hck (some ref) s cur hfacts rs h⟩
+        have hfacts := parseFile_facts ext fmt hf s n1 cur n2 hp2
+        exact ⟨cur, n1, n2, hp2, hfacts, lintParsed_explained ext fmt hf (some ref) s cur hfacts rs h⟩
 
 end C17P
